@@ -115,6 +115,23 @@ func genScript(rt *rapid.T, race bool) Script {
 			s.Steps = append(s.Steps, Step{Kind: r, S: st.S, I: rapid.IntRange(0, 11).Draw(rt, "ri"), Inject: race && r == "resume" && rapid.Bool().Draw(rt, "inject")})
 		}
 	}
+	// A shape generated on purpose for stores short of memory: a stream gathers ten or more messages, is cut,
+	// and a message that needs the whole budget is then written (the purge inside that append drains the
+	// stream's stored events in one go), followed by the response and a resume from just before.
+	if s.StoreBytes >= 2000 && rapid.IntRange(0, 1).Draw(rt, "drain_macro") == 0 {
+		macro := []Step{{Kind: "post"}}
+		for i, k := 0, rapid.IntRange(10, 13).Draw(rt, "drain_k"); i < k; i++ {
+			macro = append(macro, Step{Kind: "note", S: 0})
+		}
+		macro = append(macro, Step{Kind: "cut", S: 0}, Step{Kind: "note", S: 0, Big: true}, Step{Kind: "note", S: 0})
+		if rapid.Bool().Draw(rt, "drain_finish") {
+			macro = append(macro, Step{Kind: "finish", S: 0})
+		}
+		for _, i := range []int{11, 10, 9, 8} {
+			macro = append(macro, Step{Kind: "resume", S: 0, I: i})
+		}
+		s.Steps = append(macro, s.Steps...)
+	}
 	return s
 }
 
